@@ -36,3 +36,6 @@ MUTANTS.append(dict(name="registry-lookup-by-lowercased-name", file='types/resol
     new="        if schema.name and schema.name.capitalize() in self.ref_resolver.schemas:\n            target_schema = self.ref_resolver.schemas[schema.name.capitalize()]\n"))
 MUTANTS.append(dict(name="cycle-heuristic-loses-item-exemption", file="core/parsing/unified_cycle_detection.py", expect="R2.2",
     old='name.startswith(schema_name) and name != schema_name and not name.endswith("Item")', new='name.startswith(schema_name) and name != schema_name'))
+MUTANTS.append(dict(name="by-name-fallback-ignores-own-kind", file='types/resolvers/schema_resolver.py', expect="R2.11", old='            if target_schema is not schema and not is_other_kind:\n', new="            if target_schema is not schema:\n"))
+MUTANTS.append(dict(name="declared-schema-skipped-by-sanitised-name", file='core/loader/schemas/extractor.py', expect="R2.10", old='        if n not in context.parsed_schemas:\n            _parse_schema(n, nd, context, allow_self_reference=True)\n',
+    new="        if n not in context.parsed_schemas and NameSanitizer.sanitize_class_name(n) not in context.parsed_schemas:\n            _parse_schema(n, nd, context, allow_self_reference=True)\n"))
